@@ -116,6 +116,10 @@ func runHistory(r *Run, g *Gen, hc histCfg) {
 			if g.UP4 && g.Avoid["up4-multi-pdr-session"] {
 				sh.ExtraPDRs = 0
 			}
+			if g.UP4 && sh.ExtraPDRs == 0 && r.Ch.Choose(3, "base-sdf") == 1 {
+				// one PDR pair that carries an application filter itself (no trigger involved)
+				sh.BaseSDF = g.Flow(false)
+			}
 			s := g.Session(p, sh)
 			res := p.Establish(s)
 			if res.Rx == nil && r.AgentAlive() && slowDatapath(r) {
